@@ -249,9 +249,9 @@ Proof.
     destruct (emit st2 [62%N]) as [o3 st3]. cbn [snd] in H3.
     exists st3. split; [exact H3|]. split; [discriminate|]. intros _.
     destruct (kids_fn st3) as [ks st4]. cbn [fst snd].
-    pose proof (fun H => emit_markup st4 _ H (markup_close (pfx ns ++ name))) as H5.
-    destruct (emit st4 ([60; 47]%N ++ (pfx ns ++ name) ++ [62%N])) as [c st5]. cbn [fst snd seen] in *.
-    split; [reflexivity|]. intros H4. exact (proj2 (H5 H4)).
+    destruct (emit st4 ([60; 47]%N ++ (pfx ns ++ name) ++ [62%N])) as [c st5] eqn:Ee. cbn [fst snd seen] in *.
+    split; [reflexivity|]. intros H4. change st5 with (snd (c, st5)). rewrite <- Ee.
+    exact (proj2 (emit_markup st4 _ H4 (markup_close (pfx ns ++ name)))).
   - destruct (emit_markup st2 [47; 62]%N H2 markup_sgt) as [_ H3].
     destruct (emit st2 [47; 62]%N) as [o3 st3]. cbn [snd] in H3.
     exists st3. split; [exact H3|]. split; [|discriminate]. intros _. cbn [fst snd seen map]. split; [reflexivity|exact H3].
@@ -347,3 +347,309 @@ Proof.
   - cbn [lf_node]. destruct (emit_markup st (pi_str t c) Ho (markup_pi t c)) as [_ Hp].
     destruct (emit st (pi_str t c)) as [d st']. cbn [fst snd seen] in *. split; [reflexivity|]. split; [lia|intros _; exact Hp].
 Qed.
+
+(* ------------------------------------------------------------------------------------------ *)
+(* trees in normal form are clean, and their texts outside preserved regions are collapsed *)
+
+Lemma spec_collapse_fixed s f l : collapse (reduce_text_spec s f l) = reduce_text_spec s f l.
+Proof.
+  destruct (spec_cases s f l) as [E|[[E _]|(a & b & k & Hk & E & _)]]; rewrite E; [reflexivity|reflexivity|].
+  apply collapse_nf. exact Hk.
+Qed.
+
+Lemma rw_lfok l : forall f, (forall x, In x l -> is_text x = false -> lfok false x = true) ->
+  forallb (lfok false) (rw f l) = true.
+Proof.
+  induction l as [|x r IH]; intros f H; [reflexivity|].
+  assert (Hr : forall y, In y r -> is_text y = false -> lfok false y = true) by (intros y Hy; apply H; right; exact Hy).
+  destruct (is_text x) eqn:Ex.
+  - destruct x as [|s| |]; try discriminate. rewrite rw_cons_text.
+    destruct (null (reduce_text_spec s f (null r))); cbn [app forallb]; [apply IH; exact Hr|].
+    cbn [lfok orb]. rewrite spec_collapse_fixed, str_eqb_refl. apply IH. exact Hr.
+  - rewrite rw_cons_nontext by exact Ex. cbn [forallb]. rewrite (H x (or_introl eq_refl) Ex). apply IH. exact Hr.
+Qed.
+
+Theorem R_lfok n : forall d, is_text n = false -> lfok d (R d n) = true.
+Proof.
+  induction n as [ns name attrs kids IH|s|s|t c] using node_ind'; intros d Ht; try discriminate; try reflexivity.
+  cbn [reduce_with lfok]. set (d' := directive attrs d).
+  assert (HK : forall x, In x (drop_empty (map (R d') kids)) -> is_text x = false -> lfok d' x = true).
+  { intros x Hx Hxt. unfold drop_empty in Hx. apply filter_In in Hx as [Hx _]. apply in_map_iff in Hx as (y & <- & Hy).
+    rewrite Forall_forall in IH. rewrite R_is_text in Hxt. exact (IH y Hy d' Hxt). }
+  destruct d' eqn:Ed.
+  - apply forallb_forall. intros x Hx. destruct (is_text x) eqn:Ex; [destruct x; try discriminate; reflexivity|exact (HK x Hx Ex)].
+  - apply rw_lfok. exact HK.
+Qed.
+
+Definition Cnft (t : node) (_ : nft t) : Prop := clean t = true /\ lfok false t = true.
+Definition Cnf (prev : sib) (l : list node) (_ : nf prev l) : Prop :=
+  no_adjacent_text (is_afterX prev) l = true /\ forallb clean l = true /\ forallb (lfok false) l = true
+  /\ forallb (fun k => negb (is_empty_text k)) l = true.
+Definition Cnfk (l : list node) (_ : nfk l) : Prop :=
+  no_adjacent_text false l = true /\ forallb clean l = true /\ forallb (lfok false) l = true
+  /\ forallb (fun k => negb (is_empty_text k)) l = true.
+
+Lemma clean_tag ns name attrs kids :
+  no_adjacent_text false kids = true -> forallb clean kids = true ->
+  forallb (fun k => negb (is_empty_text k)) kids = true -> clean (Tag ns name attrs kids) = true.
+Proof.
+  intros H1 H2 H3. unfold clean. cbn [merged no_empty]. rewrite H1. cbn [andb].
+  assert (Hm : forallb merged kids = true).
+  { apply forallb_forall. intros x Hx. rewrite forallb_forall in H2. specialize (H2 x Hx). unfold clean in H2. apply andb_prop in H2 as [H _]. exact H. }
+  rewrite Hm. cbn [andb]. apply forallb_forall. intros x Hx. rewrite forallb_forall in H2, H3.
+  specialize (H2 x Hx). specialize (H3 x Hx). unfold clean in H2. apply andb_prop in H2 as [_ H]. rewrite H3, H. reflexivity.
+Qed.
+
+Lemma core_text_props lead k trail : core k ->
+  clean (Text (optsp lead ++ k ++ optsp trail)) = true /\ lfok false (Text (optsp lead ++ k ++ optsp trail)) = true /\
+  is_empty_text (Text (optsp lead ++ k ++ optsp trail)) = false.
+Proof.
+  intros Hk. split; [reflexivity|]. split.
+  - cbn [lfok orb]. rewrite (collapse_nf lead k trail Hk). apply str_eqb_refl.
+  - cbn [is_empty_text]. destruct lead; [reflexivity|]. cbn [optsp app]. destruct k; [destruct Hk as [H _]; cbn in H; tauto|reflexivity].
+Qed.
+
+Theorem nft_clean_lfok : forall t (H : nft t), Cnft t H.
+Proof.
+  apply (nft_mut Cnft Cnf Cnfk); unfold Cnft, Cnf, Cnfk.
+  - intros n Hc Hr Hk. split; [exact Hc|]. rewrite <- Hr. apply R_lfok. destruct n; try reflexivity. destruct Hk.
+  - intros ns name attrs ks Hd Hk (H1 & H2 & H3 & H4). split; [apply clean_tag; assumption|].
+    cbn [lfok]. rewrite Hd. exact H3.
+  - intros prev. repeat split.
+  - intros prev x r Hx Hnx (Hc & Hl) Hnr (H1 & H2 & H3 & H4). cbn [no_adjacent_text forallb].
+    rewrite Hx, andb_false_r. cbn [negb andb]. cbn [is_afterX] in H1. rewrite H1, H2, H3, H4, Hc, Hl.
+    replace (is_empty_text x) with false by (destruct x; try reflexivity; discriminate). repeat split.
+  - intros prev lead trail k r Hk Hp Hl Ht Hnr (H1 & H2 & H3 & H4).
+    destruct (core_text_props lead k trail Hk) as (E1 & E2 & E3).
+    cbn [no_adjacent_text forallb is_text]. cbn [is_afterX] in H1. rewrite H1, H2, H3, H4, E1, E2, E3.
+    replace (is_afterX prev) with false by (destruct prev; try reflexivity; congruence). repeat split.
+  - intros r Hrn Hnr (H1 & H2 & H3 & H4). cbn [no_adjacent_text forallb is_text is_afterX]. cbn [is_afterX] in H1.
+    rewrite H1, H2, H3, H4. repeat split.
+  - repeat split.
+  - intros l Hl (H1 & H2 & H3 & H4). cbn [is_afterX] in H1. repeat split; assumption.
+Qed.
+
+(* ------------------------------------------------------------------------------------------ *)
+(* TextWrappingSerializer.serialize_node: the emission patterns *)
+
+Lemma la_legal x next : is_text x = false -> legit_after x next = legal (Some x) next.
+Proof. intros Hx. destruct next as [y|]; [|reflexivity]. destruct x; try discriminate; destruct y; reflexivity. Qed.
+
+Lemma winv_set_pres st b p prev next : winv (set_pres st b) p prev next <-> winv st p prev next.
+Proof. unfold winv, set_pres. cbn [w_off]. tauto. Qed.
+
+Lemma ws_indent_NL : ws_indent NL = true. Proof. reflexivity. Qed.
+
+Section Step.
+  Variable ind : str.
+  Variable align : bool.
+  Variable width : Z.
+  Variable req : rpath -> Z -> option Z.
+  Hypothesis ind_ws : ws_indent ind = true.
+
+  Lemma ws_indent_indent L : ws_indent (indent ind L) = true.
+  Proof. unfold indent. apply ws_indent_repeat. exact ind_ws. Qed.
+
+  (* what one step of the children loop must deliver for a non-text child x: whitespace b before it (legal if there is
+     any), the chunk of the node (a variant of x), whitespace a after it, and the invariant for the next position *)
+  Definition step_post (cs : list chunk) (st' : wst) (p : str) (prev : option node) (x : node) (next : option node) : Prop :=
+    exists bs b c als a, cs = bs ++ [c] ++ als /\ sees bs b /\ all_ws b /\ (p ++ b <> [] -> legal prev (Some x) = true) /\
+      sees als a /\ winv st' a (Some x) next /\ wvt x (mseen c) /\ is_text (seen c) = false.
+
+  Definition nl_if (cond : bool) (st : wst) (cs : list chunk) : list chunk * wst :=
+    if cond then let '(c, st') := emit_raw st NL in (cs ++ c, st') else (cs, st).
+
+  Lemma nl_if_spec cond st cs x next : (0 < w_off st)%Z -> is_text x = false ->
+    (cond = true -> legit_after x next = true) ->
+    exists als a, fst (nl_if cond st cs) = cs ++ als /\ sees als a /\ winv (snd (nl_if cond st cs)) a (Some x) next.
+  Proof.
+    intros Ho Hx Hc. unfold nl_if. destruct cond.
+    - destruct (emit_ws_step st [] (Some x) next NL (winv_pos st _ _ Ho) ws_indent_NL) as (w' & E & Hw & Hs & Hi & _).
+      { right. rewrite <- la_legal by exact Hx. apply Hc. reflexivity. }
+      destruct (emit_raw st NL) as [c st']. cbn [fst snd] in *. subst c. exists [KRaw w'], w'. repeat split; try assumption; apply Hi.
+    - exists [], []. cbn [fst snd]. split; [rewrite app_nil_r; reflexivity|]. split; [apply sees_nil|apply winv_pos; exact Ho].
+  Qed.
+
+  (* the element / comment / PI itself when it is appended to the line: verbatim *)
+  Lemma appendable_spec L st x p prev : winv st p prev (Some x) -> is_text x = false ->
+    clean x = true -> lfok false x = true ->
+    exists bs b c, fst (appendable ind L st x) = bs ++ [c] /\ sees bs b /\ all_ws b /\
+      (p ++ b <> [] -> legal prev (Some x) = true) /\ mseen c = x /\ is_text (seen c) = false /\
+      (0 < w_off (snd (appendable ind L st x)))%Z.
+  Proof.
+    intros Hi Hx Hc Hl. unfold appendable.
+    assert (Hpre : exists bs b st1, (if ((w_off st =? 0)%Z && has_ind ind)%bool then emit_raw st (indent ind L) else ([], st)) = (bs, st1)
+                   /\ sees bs b /\ all_ws b /\ winv st1 (p ++ b) prev (Some x)).
+    { destruct ((w_off st =? 0)%Z && has_ind ind)%bool eqn:E.
+      - apply andb_prop in E as [E _]. apply Z.eqb_eq in E.
+        destruct (emit_ws_step st p prev (Some x) (indent ind L) Hi (ws_indent_indent L) (or_introl E)) as (w' & Ew & Hw & Hs & Hi' & _).
+        destruct (emit_raw st (indent ind L)) as [c st1]. cbn [fst snd] in *. subst c.
+        exists [KRaw w'], w', st1. repeat split; try assumption; try apply Hi'. apply all_ws_ws_indent. exact Hw.
+      - exists [], [], st. rewrite app_nil_r. repeat split; try apply Hi. apply sees_nil. constructor. }
+    destruct Hpre as (bs & b & st1 & -> & Hs & Hb & (Ho1 & _ & _ & Hleg)).
+    assert (Hm : merged x = true) by (unfold clean in Hc; apply andb_prop in Hc as [H _]; exact H).
+    destruct x as [ns name attrs kids|s|s|t c]; try discriminate.
+    - set (r := if directive attrs false then tplain (set_pres st1 true) (Tag ns name attrs kids) else lf_node false st1 (Tag ns name attrs kids)).
+      assert (Hr : seen (fst r) = Tag ns name attrs kids /\ (0 < w_off (snd r))%Z).
+      { unfold r. destruct (directive attrs false).
+        - destruct (tplain_ok _ Hm (set_pres st1 true) Ho1 ltac:(discriminate)) as (E1 & _ & E2). split; [exact E1|apply E2; reflexivity].
+        - destruct (lf_node_ok _ false Hm Hl st1 Ho1 ltac:(discriminate)) as (E1 & _ & E2). split; [exact E1|apply E2; reflexivity]. }
+      destruct r as [c st2]. cbn [fst snd] in *. destruct Hr as [E1 E2].
+      exists bs, b, c. repeat split; try assumption.
+      + unfold mseen. rewrite E1. apply merge_id. exact Hc.
+      + rewrite E1. reflexivity.
+    - destruct (emit_markup st1 (comment_str s) Ho1 (markup_comment s)) as [_ Hp].
+      destruct (emit st1 (comment_str s)) as [d st2]. cbn [fst snd] in *.
+      exists bs, b, (KComment s). repeat split; assumption.
+    - destruct (emit_markup st1 (pi_str t c) Ho1 (markup_pi t c)) as [_ Hp].
+      destruct (emit st1 (pi_str t c)) as [d st2]. cbn [fst snd] in *.
+      exists bs, b, (KPI t c). repeat split; assumption.
+  Qed.
+
+  (* the branches of serialize_node, named *)
+  Definition foll_of (rp : rpath) (aft : option rpath) (x : node) : option rpath :=
+    match x with Tag _ _ _ (_ :: _) => Some (O :: rp) | _ => aft end.
+  Definition tail_e (L : nat) (la : bool) (foll : option rpath) (cs : list chunk) (st : wst) : list chunk * wst :=
+    nl_if (la && negb (match foll with Some f => fits ind width req L st f | None => false end))%bool st cs.
+  Definition bfit (L : nat) (x : node) (is_last la : bool) (foll : option rpath) (st : wst) : list chunk * wst :=
+    let '(cs, st1) := appendable ind L st x in
+    if (((available ind width L st1 =? 0)%Z || is_last) && la)%bool
+    then let '(c, st2) := emit_raw st1 NL in (cs ++ c, st2)
+    else tail_e L la foll cs st1.
+  Definition bnofit (rec : nat -> wst -> rpath -> option rpath -> node -> chunk * wst)
+             (L : nat) (rp : rpath) (aft : option rpath) (x : node) (lb la : bool) (foll : option rpath) (st : wst)
+    : list chunk * wst :=
+    let '(i, st1) := if (has_ind ind && (w_off st =? 0)%Z && lb)%bool then emit_raw st (indent ind L) else ([], st) in
+    let st2 := match x with Tag _ _ attrs _ => if directive attrs false then set_pres st1 true else st1 | _ => st1 end in
+    let '(cs, st3) := dispatch ind width req rec L st2 rp aft x in
+    tail_e L la foll (i ++ cs) (set_pres st3 false).
+
+  Lemma w_node_unfold rec L st rp prev next aft x :
+    w_node ind width req rec L st rp prev next aft x =
+    let lb := legit_before prev x in
+    let la := legit_after x next in
+    let is_last := match next with None => true | Some _ => false end in
+    let foll := foll_of rp aft x in
+    if fits ind width req L st rp then bfit L x is_last la foll st
+    else if ((line_offset ind L st >? 0)%Z && lb)%bool then
+      let '(c, st') := emit_raw st NL in
+      let '(cs, st'') := if fits ind width req L st' rp then bfit L x is_last la foll st' else bnofit rec L rp aft x lb la foll st' in
+      (c ++ cs, st'')
+    else bnofit rec L rp aft x lb la foll st.
+  Proof. reflexivity. Qed.
+
+  Lemma tail_e_spec L la foll cs st x next : (0 < w_off st)%Z -> is_text x = false -> la = legit_after x next ->
+    exists als a, fst (tail_e L la foll cs st) = cs ++ als /\ sees als a /\ winv (snd (tail_e L la foll cs st)) a (Some x) next.
+  Proof.
+    intros Ho Hx ->. unfold tail_e. apply nl_if_spec; [exact Ho|exact Hx|].
+    intros H. apply andb_prop in H as [H _]. exact H.
+  Qed.
+
+  Section WithX.
+    Variable x : node.
+    Hypothesis x_nontext : is_text x = false.
+    Hypothesis x_clean : clean x = true.
+    Hypothesis x_lfok : lfok false x = true.
+    Hypothesis x_refl : wvt x x.
+
+    Lemma bfit_spec L is_last la foll st p prev next : winv st p prev (Some x) -> la = legit_after x next ->
+      step_post (fst (bfit L x is_last la foll st)) (snd (bfit L x is_last la foll st)) p prev x next.
+    Proof.
+      intros Hi Hla. unfold bfit.
+      destruct (appendable_spec L st x p prev Hi x_nontext x_clean x_lfok) as (bs & b & c & E & Hs & Hb & Hleg & Hm & Ht & Ho).
+      destruct (appendable ind L st x) as [cs st1]. cbn [fst snd] in *. subst cs.
+      assert (Hv : wvt x (mseen c)) by (rewrite Hm; exact x_refl).
+      destruct (((available ind width L st1 =? 0)%Z || is_last) && la)%bool eqn:Ec.
+      - destruct (nl_if_spec true st1 (bs ++ [c]) x next Ho x_nontext) as (als & a & E1 & Hsa & Hia).
+        { intros _. apply andb_prop in Ec as [_ Ec]. rewrite <- Hla. exact Ec. }
+        unfold nl_if in E1, Hia. destruct (emit_raw st1 NL) as [c0 st2]. cbn [fst snd] in *.
+        exists bs, b, c, als, a. rewrite E1, <- app_assoc. split; [reflexivity|]. split; [exact Hs|]. split; [exact Hb|]. split; [exact Hleg|]. split; [exact Hsa|]. split; [exact Hia|]. split; [exact Hv|exact Ht].
+      - destruct (tail_e_spec L la foll (bs ++ [c]) st1 x next Ho x_nontext Hla) as (als & a & E1 & Hsa & Hia).
+        destruct (tail_e L la foll (bs ++ [c]) st1) as [cs2 st2]. cbn [fst snd] in *.
+        exists bs, b, c, als, a. rewrite E1, <- app_assoc. split; [reflexivity|]. split; [exact Hs|]. split; [exact Hb|]. split; [exact Hleg|]. split; [exact Hsa|]. split; [exact Hia|]. split; [exact Hv|exact Ht].
+    Qed.
+
+    Variable rec : nat -> wst -> rpath -> option rpath -> node -> chunk * wst.
+    Variables (L : nat) (rp : rpath) (aft : option rpath).
+    (* what the serializer for elements written over several lines delivers (the induction hypothesis) *)
+    Hypothesis rec_spec : forall st1, (0 <= w_off st1)%Z ->
+      wvt x (mseen (fst (rec L st1 rp aft x))) /\ is_text (seen (fst (rec L st1 rp aft x))) = false /\
+      (0 < w_off (snd (rec L st1 rp aft x)))%Z.
+
+    Lemma dispatch_spec st p prev : winv st p prev (Some x) ->
+      exists bs b c, fst (dispatch ind width req rec L st rp aft x) = bs ++ [c] /\ sees bs b /\ all_ws b /\
+        (p ++ b <> [] -> legal prev (Some x) = true) /\ wvt x (mseen c) /\ is_text (seen c) = false /\
+        (0 < w_off (snd (dispatch ind width req rec L st rp aft x)))%Z.
+    Proof.
+      intros Hi. pose proof Hi as (Ho & Hp & H1 & H2). unfold dispatch.
+      destruct x as [ns name attrs kids|s|s|t c]; try discriminate.
+      - destruct (fits ind width req L st rp).
+        + destruct (appendable_spec L st _ p prev Hi x_nontext x_clean x_lfok) as (bs & b & c & E & Hs & Hb & Hleg & Hm & Ht & Ho').
+          exists bs, b, c. rewrite Hm. repeat split; assumption.
+        + destruct (rec_spec st Ho) as (Hv & Ht & Ho'). destruct (rec L st rp aft (Tag ns name attrs kids)) as [c st']. cbn [fst snd] in *.
+          exists [], [], c. rewrite app_nil_r. split; [reflexivity|]. split; [apply sees_nil|]. split; [constructor|].
+          split; [exact H2|]. split; [exact Hv|]. split; [exact Ht|exact Ho'].
+      - destruct (emit_markup st (comment_str s) Ho (markup_comment s)) as [_ Hpos].
+        destruct (emit st (comment_str s)) as [d st']. cbn [fst snd] in *.
+        exists [], [], (KComment s). rewrite app_nil_r. split; [reflexivity|]. split; [apply sees_nil|]. split; [constructor|].
+        split; [exact H2|]. split; [exact x_refl|]. split; [reflexivity|exact Hpos].
+      - destruct (emit_markup st (pi_str t c) Ho (markup_pi t c)) as [_ Hpos].
+        destruct (emit st (pi_str t c)) as [d st']. cbn [fst snd] in *.
+        exists [], [], (KPI t c). rewrite app_nil_r. split; [reflexivity|]. split; [apply sees_nil|]. split; [constructor|].
+        split; [exact H2|]. split; [exact x_refl|]. split; [reflexivity|exact Hpos].
+    Qed.
+
+    Lemma bnofit_spec lb la foll st p prev next : winv st p prev (Some x) ->
+      lb = legit_before prev x -> la = legit_after x next ->
+      step_post (fst (bnofit rec L rp aft x lb la foll st)) (snd (bnofit rec L rp aft x lb la foll st)) p prev x next.
+    Proof.
+      intros Hi Hlb Hla. unfold bnofit.
+      assert (Hpre : exists i w st1, (if (has_ind ind && (w_off st =? 0)%Z && lb)%bool then emit_raw st (indent ind L) else ([], st)) = (i, st1)
+                     /\ sees i w /\ all_ws w /\ winv st1 (p ++ w) prev (Some x)).
+      { destruct (has_ind ind && (w_off st =? 0)%Z && lb)%bool eqn:E.
+        - apply andb_prop in E as [_ E].
+          destruct (emit_ws_step st p prev (Some x) (indent ind L) Hi (ws_indent_indent L)) as (w' & Ew & Hw & Hs & Hi' & _).
+          { right. cbn [legal]. rewrite <- Hlb. exact E. }
+          destruct (emit_raw st (indent ind L)) as [c0 st1]. cbn [fst snd] in *. subst c0.
+          exists [KRaw w'], w', st1. repeat split; try assumption; try apply Hi'. apply all_ws_ws_indent. exact Hw.
+        - exists [], [], st. rewrite app_nil_r. repeat split; try apply Hi. apply sees_nil. constructor. }
+      destruct Hpre as (i & w & st1 & -> & Hsi & Hw & Hi1).
+      set (st2 := match x with Tag _ _ attrs _ => if directive attrs false then set_pres st1 true else st1 | _ => st1 end).
+      assert (Hi2 : winv st2 (p ++ w) prev (Some x)).
+      { unfold st2. destruct x as [? ? attrs ?| | |]; try exact Hi1. destruct (directive attrs false); [apply winv_set_pres|]; exact Hi1. }
+      destruct (dispatch_spec st2 (p ++ w) prev Hi2) as (bs & b & c & E & Hs & Hb & Hleg & Hv & Ht & Ho).
+      destruct (dispatch ind width req rec L st2 rp aft x) as [cs st3]. cbn [fst snd] in *. subst cs.
+      destruct (tail_e_spec L la foll (i ++ bs ++ [c]) (set_pres st3 false) x next Ho x_nontext Hla) as (als & a & E1 & Hsa & Hia).
+      destruct (tail_e L la foll (i ++ bs ++ [c]) (set_pres st3 false)) as [cs2 st4]. cbn [fst snd] in *.
+      exists (i ++ bs), (w ++ b), c, als, a. rewrite E1, <- !app_assoc.
+      split; [reflexivity|]. split; [apply sees_app; assumption|]. split; [apply all_ws_app; assumption|].
+      split; [rewrite app_assoc; exact Hleg|]. split; [exact Hsa|]. split; [exact Hia|]. split; [exact Hv|exact Ht].
+    Qed.
+
+    (* TextWrappingSerializer.serialize_node, all branches *)
+    Theorem w_node_spec st p prev next : winv st p prev (Some x) ->
+      step_post (fst (w_node ind width req rec L st rp prev next aft x))
+                (snd (w_node ind width req rec L st rp prev next aft x)) p prev x next.
+    Proof.
+      intros Hi. rewrite w_node_unfold. cbv zeta.
+      destruct (fits ind width req L st rp).
+      - apply bfit_spec; [exact Hi|reflexivity].
+      - destruct ((line_offset ind L st >? 0)%Z && legit_before prev x)%bool eqn:E.
+        + apply andb_prop in E as [_ E].
+          destruct (emit_ws_step st p prev (Some x) NL Hi ws_indent_NL (or_intror E)) as (w' & Ew & Hw & Hs & Hi' & _).
+          destruct (emit_raw st NL) as [c0 st1]. cbn [fst snd] in *. subst c0.
+          set (r := if fits ind width req L st1 rp
+                    then bfit L x match next with Some _ => false | None => true end (legit_after x next) (foll_of rp aft x) st1
+                    else bnofit rec L rp aft x (legit_before prev x) (legit_after x next) (foll_of rp aft x) st1).
+          assert (Hr : step_post (fst r) (snd r) (p ++ w') prev x next).
+          { unfold r. destruct (fits ind width req L st1 rp); [apply bfit_spec|apply bnofit_spec]; try exact Hi'; reflexivity. }
+          destruct r as [cs st2]. cbn [fst snd] in *.
+          destruct Hr as (bs & b & c & als & a & -> & Hsb & Hb & Hleg & Hsa & Hia & Hv & Ht).
+          exists ([KRaw w'] ++ bs), (w' ++ b), c, als, a. rewrite <- !app_assoc.
+          split; [reflexivity|]. split; [apply sees_app; assumption|].
+          split; [apply all_ws_app; [apply all_ws_ws_indent; exact Hw|exact Hb]|].
+          split; [rewrite app_assoc; exact Hleg|]. split; [exact Hsa|]. split; [exact Hia|]. split; [exact Hv|exact Ht].
+        + apply bnofit_spec; [exact Hi|reflexivity|reflexivity].
+    Qed.
+  End WithX.
+End Step.
